@@ -2467,4 +2467,144 @@ theorem programs_match_source' :
     (Coba.Generated.C11.applySrc ≠ [] ∧ ∀ e ∈ Coba.Generated.C11.applySrc, e = applyExpr) ∧ Coba.Generated.C11.meanSrc = meanExpr := by
   decide +kernel
 
+/-! ## phase 6 — generator histories (partial, abandoned, interleaved reads) -/
+
+theorem drop_cons_getElem? {α : Type} (rows : List α) (k : Nat) (r : α) (rest : List α)
+    (h : rows.drop k = r :: rest) : rows[k]? = some r ∧ rows.drop (k + 1) = rest := by
+  induction rows generalizing k with
+  | nil => simp at h
+  | cons a as ih =>
+    cases k with
+    | zero => simp at h; simp [h]
+    | succ k => simpa using ih k (by simpa using h)
+
+theorem drop_nil_getElem? {α : Type} (rows : List α) (k : Nat) (h : rows.drop k = []) : rows[k]? = none := by
+  simp at h; simp [h]
+
+theorem set_same {α : Type} (l : List α) (g : Nat) (a : α) (h : l[g]? = some a) : l.set g a = l := by
+  induction l generalizing g with
+  | nil => rfl
+  | cons b bs ih =>
+    cases g with
+    | zero => simp at h; simp [h]
+    | succ g => simp at h; simp [ih g h]
+
+/-- one step: the generator machine and the cursor machine give the same output and stay related -/
+theorem GenSt.step_cur {κ : Type} (f : κ → Ctxs → Except Err Ctxs) (srcs : List Ctxs) (s : GenSt κ) (cs : List Cur)
+    (dt : List Nat) (op : GenOp) (cfgs : List κ) (hc : s.objs.map (·.cfg) = cfgs)
+    (hg : s.gens = cs.map (Cur.conc (pipeRows f cfgs))) :
+    (s.step f srcs dt op).2 = (curStep (pipeRows f cfgs) srcs cs op).2 ∧
+    (s.step f srcs dt op).1.objs.map (·.cfg) = cfgs ∧
+    (s.step f srcs dt op).1.gens = (curStep (pipeRows f cfgs) srcs cs op).1.map (Cur.conc (pipeRows f cfgs)) := by
+  cases op with
+  | openG i =>
+    simp only [GenSt.step, curStep]
+    cases srcs[i]? with
+    | none => exact ⟨rfl, hc, hg⟩
+    | some src => exact ⟨rfl, hc, by simp [hg, Cur.conc]⟩
+  | close g =>
+    simp only [GenSt.step, curStep, hg, List.getElem?_map]
+    cases cs[g]? with
+    | none => exact ⟨rfl, hc, by simp [hg]⟩
+    | some c => exact ⟨rfl, hc, by simp [List.map_set, Cur.conc]⟩
+  | next g =>
+    simp only [GenSt.step, curStep, hg, List.getElem?_map]
+    cases hcg : cs[g]? with
+    | none => exact ⟨rfl, hc, by simp [hg]⟩
+    | some c =>
+      obtain ⟨src, pos⟩ := c
+      cases pos with
+      | none => simp [Cur.conc, hc, hg]
+      | some k =>
+        cases k with
+        | zero =>
+          obtain ⟨h1, h2⟩ := pipeRun_spec f dt s.objs (.ok src)
+          simp only [Option.map_some, Cur.conc, pipeRows]
+          rw [h2, hc]
+          cases hp : pipe f cfgs (.ok src) with
+          | error e => simp [Except.map, List.map_set, Cur.conc, h1, hc]
+          | ok c =>
+            simp only [Except.map]
+            cases hr : c.rowList with
+            | nil => simp [List.map_set, Cur.conc, h1, hc]
+            | cons r rest => simp [List.map_set, Cur.conc, h1, hc, pipeRows, hp, Except.map, hr]
+        | succ k =>
+          simp only [Option.map_some, Cur.conc]
+          cases hF : pipeRows f cfgs src with
+          | error e =>
+            have hd : (List.map (Cur.conc (pipeRows f cfgs)) cs)[g]? = some Gen.done := by
+              simp [List.getElem?_map, hcg, Cur.conc, hF]
+            simp [Cur.conc, hc, hg, set_same _ _ _ hd]
+          | ok rows =>
+            simp only []
+            cases hd : rows.drop (k + 1) with
+            | nil =>
+              have := drop_nil_getElem? rows (k + 1) hd
+              simp [this, List.map_set, Cur.conc, hc]
+            | cons r rest =>
+              obtain ⟨h1, h2⟩ := drop_cons_getElem? rows (k + 1) r rest hd
+              simp [h1, List.map_set, Cur.conc, hc, hF, h2]
+
+theorem generator_histories' {κ : Type} (f : κ → Ctxs → Except Err Ctxs) (srcs : List Ctxs) (s : GenSt κ) (cs : List Cur)
+    (ops : List (List Nat × GenOp)) (hg : s.gens = cs.map (Cur.conc (pipeRows f (s.objs.map (·.cfg))))) :
+    (GenSt.run f srcs s ops).2 = (curRun (pipeRows f (s.objs.map (·.cfg))) srcs cs (ops.map (·.2))).2 := by
+  induction ops generalizing s cs with
+  | nil => rfl
+  | cons o rest ih =>
+    obtain ⟨dt, op⟩ := o
+    obtain ⟨h1, h2, h3⟩ := GenSt.step_cur f srcs s cs dt op _ rfl hg
+    simp only [GenSt.run, curRun, List.map_cons]
+    rw [h1]
+    have := ih (s.step f srcs dt op).1 (curStep (pipeRows f (s.objs.map (·.cfg))) srcs cs op).1 (by rw [h2]; exact h3)
+    rw [h2] at this
+    rw [this]
+
+
+/-- from the start (no generator yet): every output of every history is the cursor machine's output -/
+theorem generator_histories_init' {κ : Type} (f : κ → Ctxs → Except Err Ctxs) (srcs : List Ctxs) (objs : List (Obj κ))
+    (ops : List (List Nat × GenOp)) :
+    (GenSt.run f srcs ⟨objs, []⟩ ops).2 = (curRun (pipeRows f (objs.map (·.cfg))) srcs [] (ops.map (·.2))).2 :=
+  generator_histories' f srcs ⟨objs, []⟩ [] ops rfl
+
+/-- a step of the cursor machine touches no other cursor -/
+theorem cursor_frame' (F : Ctxs → Except Err (List Row)) (srcs : List Ctxs) (cs : List Cur) (op : GenOp) (g' : Nat)
+    (hlt : g' < cs.length) (hne : op ≠ .next g' ∧ op ≠ .close g') :
+    (curStep F srcs cs op).1[g']? = cs[g']? := by
+  cases op with
+  | openG i =>
+    simp only [curStep]
+    cases srcs[i]? with
+    | none => rfl
+    | some src => simp [List.getElem?_append_left hlt]
+  | close g =>
+    have hg : g ≠ g' := fun h => hne.2 (by rw [h])
+    simp only [curStep]
+    cases cs[g]? with
+    | none => rfl
+    | some c => simp [List.getElem?_set_ne hg]
+  | next g =>
+    have hg : g ≠ g' := fun h => hne.1 (by rw [h])
+    simp only [curStep]
+    cases cs[g]? with
+    | none => rfl
+    | some c =>
+      obtain ⟨src, pos⟩ := c
+      cases pos with
+      | none => rfl
+      | some k =>
+        simp only []
+        cases F src with
+        | error e => simp [List.getElem?_set_ne hg]
+        | ok rows =>
+          simp only []
+          cases rows[k]? with
+          | none => simp [List.getElem?_set_ne hg]
+          | some r => simp [List.getElem?_set_ne hg]
+
+/-- the result lists of the two pipelines -/
+theorem generator_pipelines' (sd : List Rat → Rat) (cfg : Cfg) (stats : List Stat) (ind : Bool) (u : Option Nat) (c : Ctxs) :
+    pipeRows (scaleCtxs sd) [cfg] c = (scaleCtxs sd cfg c).map Ctxs.rowList ∧
+    pipeRows imputeF (stats.map (fun st => (st, ind, u))) c = .ok (envImpute stats ind u c).rowList := by
+  refine ⟨by simp only [pipeRows, pipe_scale], by simp only [pipeRows, pipe_impute]; rfl⟩
+
 end Coba.C11
